@@ -8,8 +8,8 @@ ASSUME = [
     'TLC 1.8 evaluates the specification correctly',
     'package Water / Ethanol / Octane / Butanol / EthylAcetate (Dortmund UNIFAC) plus the solutes Naphthalene / Urea / AdipicAcid; the activities are '
     'evaluated with the library\'s own activity-coefficient object (C16 is about it); tolerances: activities 5 % relative (the Gibbs-minimising methods stop at '
-    'f_tol = 1e-6 on the Gibbs energy, which leaves the activities of dilute components uncertain at the per-cent level), reuse vs. fresh solve and '
-    'proportionality 1e-5 / 1e-6 of each chemical\'s total',
+    'f_tol = 1e-6 on the Gibbs energy, which leaves the activities of dilute components uncertain at the per-cent level), reuse vs. fresh solve 1e-5 of each chemical\'s total, '
+    'proportionality 1e-6 (pseudo equilibrium) / 1e-3 (Gibbs minimisers: two runs differing in the last bits of the normalised feed agree to solver resolution)',
     'the solver numerics are not modelled; the model is the memory protocol of the LLE object (what is remembered, when it is reused) and the contracts',
 ]
 
@@ -94,7 +94,7 @@ def random_lle_trace(seed, tid, method):
     for n in range(rng.randint(2, 5)):
         ids = rng.sample(dl.LLE_IDS, rng.randint(2, 5))
         if not ({'Water'} & set(ids)) or not ({'Octane', 'Butanol', 'EthylAcetate'} & set(ids)):
-            ids = list(set(ids) | {'Water', rng.choice(['Octane', 'Butanol', 'EthylAcetate'])})
+            ids = sorted(set(ids) | {'Water', rng.choice(['Octane', 'Butanol', 'EthylAcetate'])})
         if steps and rng.random() < 0.5:
             comp = dict(last_comp)            # same composition again, other temperature (or the same)
         else:
@@ -139,7 +139,7 @@ def run(ctx):
     quick = ctx.quick
     depth = 4 if quick else 5
     files = {'MC_LiquidEq.tla': MC_TEMPLATE % dict(name='MC_LiquidEq', dev='', depth=depth), 'MC_LiquidEq.cfg': MC_CFG}
-    r, states = tlc.model_check('MC_LiquidEq.tla', 'MC_LiquidEq.cfg', dump=True, coverage=False, files=files, timeout=3400)
+    r, states = tlc.model_check('MC_LiquidEq.tla', 'MC_LiquidEq.cfg', dump=True, coverage=False, files=files, timeout=3400, workers=1)    # one worker: the witness paths are reproducible
     if r.violated:
         ctx.violation('LiquidEq:MC:%s' % r.violated, 'memory protocol model violates %s' % r.violated, dict(kind='mc', counterexample=r.counterexample()[:6000]))
     elif not r.ok:
